@@ -6,7 +6,7 @@ the documented rules are applied; no rendered string is computed."""
 import ast
 from .. import symex
 from ..core import (AnalysisError, short, unparse, iter_own, call_name, call_recv, kwarg,
-                    is_self_attr, atomic_facts, parents, enclosing_stmt, const_value)
+                    is_self_attr, atomic_facts, parents, enclosing_stmt, const_value, enclosing_func)
 from .. import tables
 
 L2T = 'pylatexenc.latex2text'
@@ -427,6 +427,33 @@ def run(ctx):
     ctx.decide('R03g', ok, dm, mac, 'dotless i/j replaced before composing',
                'dotless i/j are no longer replaced before the accent is applied',
                construct='make_accented_char: dotless letters', trivial=True)
+
+    # the dotless letters are looked for character by character: the compared variable is the per-character one
+    # (parameter of the helper applied to each character, or the variable of the loop/comprehension over the argument)
+    for f_ in acc_scope:
+        for c_ in ast.walk(f_):
+            if not (isinstance(c_, ast.Compare) and len(c_.ops) == 1 and isinstance(c_.comparators[0], ast.Constant)
+                    and c_.comparators[0].value in (u'\u0131', u'\u0237') and isinstance(c_.left, ast.Name)):
+                continue
+            var = c_.left.id
+            enc = enclosing_func(c_)
+            per_char = False
+            if enc is not None and enc is not mac and var in {a_.arg for a_ in enc.args.args}:
+                # the helper must be applied elementwise: called with the variable of a loop / comprehension
+                callers = [x_ for g_ in acc_scope for x_ in ast.walk(g_) if isinstance(x_, ast.Call)
+                           and isinstance(x_.func, ast.Name) and x_.func.id == enc.name]
+                per_char = bool(callers) and all(any(isinstance(p_, (ast.ListComp, ast.GeneratorExp, ast.For))
+                                                     for p_ in parents(x_)) for x_ in callers)
+            elif any(isinstance(p_, (ast.ListComp, ast.GeneratorExp)) and any(
+                    isinstance(t_, ast.Name) and t_.id == var for g2 in p_.generators for t_ in ast.walk(g2.target))
+                    for p_ in parents(c_)) or any(
+                        isinstance(p_, ast.For) and any(isinstance(t_, ast.Name) and t_.id == var for t_ in ast.walk(p_.target))
+                        for p_ in parents(c_)):
+                per_char = True
+            ctx.decide('R03g', per_char, dm, c_, 'dotless letter looked for per character (%s)' % var,
+                       'the dotless i/j test compares `%s`, which is the whole argument text, not one character of it: in an '
+                       'argument of several letters (\\^{\\i\\j}) the dotless letters are kept, so the result differs from '
+                       'accenting the letters one by one' % var, construct='make_accented_char: dotless test on ' + var)
 
     # ------------------------------------------------------------ R03h
     nl = meths.get('nodelist_to_text')
